@@ -360,7 +360,17 @@ fn hostile_env_value() -> std::ffi::OsString {
 
 static CHILDREN_SPAWNED: AtomicU64 = AtomicU64::new(0);
 
-fn spawn_child(args: &[String]) -> std::io::Result<std::process::Child> {
+/// `TZ` is part of the simulated environment too (`localtime`, `strflocaltime`, `mktime`
+/// read it): one value per chunk of trials, a function of the chunk's first trial index.
+const TZ_VALUES: &[&str] = &[
+    "UTC", "EST5EDT", "PST8PDT", "<+03>-3", "é+1:30é", "+99999999999999999999", "", "A-99999999999:99999999", "CET-1CEST,M3.5.0,M10.5.0/3", "+1é:2", "Z", "-25:61",
+];
+
+fn tz_for_trial(i: u64) -> &'static str {
+    TZ_VALUES[((i / CHUNK) % TZ_VALUES.len() as u64) as usize]
+}
+
+fn spawn_child(args: &[String], tz: &str) -> std::io::Result<std::process::Child> {
     CHILDREN_SPAWNED.fetch_add(1, Ordering::Relaxed);
     let exe = std::env::current_exe()?;
     Command::new(exe)
@@ -368,7 +378,7 @@ fn spawn_child(args: &[String]) -> std::io::Result<std::process::Child> {
         .env_clear()
         .env("PATH", "/usr/bin:/bin")
         .env("HOME", "/nonexistent")
-        .env("TZ", "UTC")
+        .env("TZ", tz)
         .env("LEGACY_NAME", hostile_env_value())
         .env("VERIF_ROOT", verif_root())
         .stdin(Stdio::null())
@@ -606,6 +616,9 @@ struct Case {
     /// Run through the real `succinctly jq` binary under RLIMIT_AS instead of in-process.
     #[serde(default)]
     cli: bool,
+    /// Value of `TZ` in the simulated environment (default UTC).
+    #[serde(default)]
+    tz: Option<String>,
 }
 
 #[derive(Serialize, Deserialize)]
@@ -654,7 +667,7 @@ fn run_case_cli(case: &Case) -> (Outcome, Option<Failure>) {
         .env_clear()
         .env("PATH", "/usr/bin:/bin")
         .env("HOME", "/nonexistent")
-        .env("TZ", "UTC")
+        .env("TZ", case.tz.as_deref().unwrap_or("UTC"))
         .env("LEGACY_NAME", hostile_env_value())
         .stdin(Stdio::piped())
         .stdout(Stdio::null())
@@ -781,7 +794,7 @@ fn run_case_site(case: &Case, site: bool) -> (Outcome, Option<Failure>) {
         "--site".to_string(),
         if site { "1" } else { "0" }.to_string(),
     ];
-    let child = match spawn_child(&args) {
+    let child = match spawn_child(&args, case.tz.as_deref().unwrap_or("UTC")) {
         Ok(c) => c,
         Err(e) => {
             eprintln!("harness error: cannot spawn child: {e}");
@@ -964,7 +977,7 @@ fn run_parent(seed: u64, tier: Tier, runs: u64, workers: usize, want_log_hash: b
                         "--to".to_string(),
                         hi.to_string(),
                     ];
-                    let child = match spawn_child(&args) {
+                    let child = match spawn_child(&args, tz_for_trial(lo)) {
                         Ok(c) => c,
                         Err(e) => {
                             eprintln!("harness error: cannot spawn child: {e}");
@@ -1102,7 +1115,7 @@ fn run_parent(seed: u64, tier: Tier, runs: u64, workers: usize, want_log_hash: b
                             break;
                         }
                         let t = progen::trial(seed, i);
-                        let case = Case { program: t.program, input: t.input, mem: CLI_MEM, b_first: false, cli: true };
+                        let case = Case { program: t.program, input: t.input, mem: CLI_MEM, b_first: false, cli: true, tz: Some(tz_for_trial(i).to_string()) };
                         let (o, f) = run_case_cli(&case);
                         let name = match &o {
                             Outcome::Ended { class, .. } => class.clone(),
@@ -1185,6 +1198,7 @@ fn run_parent(seed: u64, tier: Tier, runs: u64, workers: usize, want_log_hash: b
             mem: if *via_cli { CLI_MEM } else { t.mem as u64 },
             b_first: i % 2 == 1,
             cli: *via_cli,
+            tz: Some(tz_for_trial(*i).to_string()),
         };
         let (min_case, mut min_f, attempts) = minimise(&case, &f.class);
         if !min_f.class.starts_with("unconfirmed:") {
